@@ -297,4 +297,49 @@ example : ∃ rows, getNamespaceData toySum okEds ns0 sumDah = .ok rows ∧
     ⟨nonvacuity_toySum_nocoll.mono (fun y hy => by unfold hashedC06; exact List.mem_append_left _ hy), toySum_len⟩
     nonvacuity_okEds_shape (by decide) rfl rfl
 
+/-! ### Non-vacuity with an ABSENCE proof (4×4 square; a 2×2 square has only one original-data share per row) -/
+
+def nsN (n : UInt8) : Bytes := List.replicate 28 0 ++ [n]
+def dsh (n t : UInt8) : Bytes := nsN n ++ [t]
+def psh (t : UInt8) : Bytes := List.replicate 29 9 ++ [t]
+/-- 4×4 square of 30-byte shares; original data 2×2 with namespaces 0, 2 / 3, 4 (the parity quadrants hold arbitrary bytes:
+    the soundness theorem does not need them to be Reed–Solomon parity) -/
+def absEds : Eds := Eds.ofRaw 4 [dsh 0 1, dsh 2 2, psh 3, psh 4,
+                                 dsh 3 5, dsh 4 6, psh 7, psh 8,
+                                 psh 10, psh 11, psh 12, psh 13,
+                                 psh 14, psh 15, psh 16, psh 17]
+def absDah : Dah := match Dah.ofEds toySum absEds with | .ok d => d | .error _ => default
+/-- what `get_namespace_data` returns for namespace 1: row 0 covers it (0 ≤ 1 ≤ 2) but holds no share of it -/
+def absRows : List RowNsData :=
+  match getNamespaceData toySum absEds (nsN 1) absDah with
+  | .ok r => r.map Prod.snd
+  | .error _ => []
+
+set_option maxRecDepth 100000 in
+theorem nonvacuity_absEds_shape : SquareShape absEds := by
+  refine ⟨?_, ?_⟩
+  · have h : ∀ r, r < 4 → ∀ c, c < 4 →
+        (match absEds.share? r c with | some sh => sh.isParity == !isOdsSquare r c absEds.width | none => true) = true := by
+      decide
+    intro r c sh hr hc hs
+    have := h r hr c hc
+    rw [hs] at this
+    simpa using this
+  · have h : absEds.shares.all (fun sh => decide (NS_SIZE ≤ sh.data.length)) = true := by decide
+    intro sh hm; simpa using List.all_eq_true.mp h sh hm
+
+set_option maxRecDepth 100000 in
+/-- the toy hash has no collision among the 59 byte strings hashed for this square and this absence answer -/
+theorem nonvacuity_toySum_nocoll_abs : NoCollOn toySum (fun y => y ∈ hashedC06 toySum absEds absRows (nsN 1)) :=
+  noCollOn_of_list (by decide)
+
+set_option maxRecDepth 100000 in
+/-- `nsdata_sound` applied to a concrete ACCEPTED ABSENCE answer (one row, absence proof, no shares) -/
+example : absRows.length = 1 ∧ (absRows.all (fun d => d.proof.isAbsence)) = true ∧
+    accepted (verify toySum absRows (nsN 1) absDah) = true ∧
+    specVerify absEds.width (rawSquare absEds) (nsN 1) (absRows.map (fun d => d.shares.map Share.data))
+      (accepted (verify toySum absRows (nsN 1) absDah)) = true :=
+  ⟨by decide, by decide, by decide, nsdata_sound nonvacuity_absEds_shape (dah := absDah) rfl rfl absRows
+    (proofOK_of_dec (by decide)) ⟨nonvacuity_toySum_nocoll_abs, toySum_len⟩⟩
+
 end Lumina.Props.C06
